@@ -176,6 +176,30 @@ func (f *Faults) inject(kind string) {
 		}
 		w.stats.fault("isolate_leader")
 		w.event("fault isolate leader s%d", l.idx)
+	case "cut_leader_from_voters":
+		// the leader keeps its links to non-voters (and to servers it does not know) but loses
+		// every voter of its latest configuration: acknowledgements keep arriving, none of them
+		// from a voter
+		l := f.leader()
+		if l == nil || l.inc == nil || l.inc.r == nil {
+			return
+		}
+		_, _, latest, _ := l.inc.r.VerifConfigurations()
+		k := 0
+		for _, id := range voters(latest) {
+			vn := w.nodeByID(id)
+			if vn == nil || vn == l {
+				continue
+			}
+			w.net.blocked[l.idx][vn.idx] = true
+			w.net.blocked[vn.idx][l.idx] = true
+			k++
+		}
+		if k == 0 {
+			return
+		}
+		w.stats.fault("leader_cut_from_voters")
+		w.event("fault cut leader s%d from its %d voters", l.idx, k)
 	case "blip_leader":
 		// the leader loses all its links for a few heartbeat intervals, shorter than its lease:
 		// requests in flight fail in the transport, then everything works again and the
